@@ -244,8 +244,12 @@ def oracles (prev s : St) (impl : List (String × String)) (prevDials : Nat := 0
   let bfBits := if implBf = "-" then [] else bitsOf implBf
   -- C01: every piece reported as held has verified content on disk (while only the client writes)
   let c01a := (List.range bfBits.length).filterMap fun i =>
-    if bfBits.getD i false && !(s.diskOKi i) && !(prev.bf.map (·.getD i false)).getD false then
+    if bfBits.getD i false && !(s.diskOKi i) && !s.tainted &&
+       (get "st" = "Downloading" || get "st" = "Seeding" || !(prev.bf.map (·.getD i false)).getD false) then
       some s!"C01 bit-without-verified-data piece={i}" else none
+  -- the same event read as C04 (status not truthful) and C05 (missing files trusted)
+  let c01a := c01a ++ (c01a.map fun v => v.replace "C01 bit-without-verified-data" "C05 bit-for-data-not-on-disk")
+                   ++ (c01a.map fun v => v.replace "C01 bit-without-verified-data" "C04 reported-piece-not-on-disk")
   -- C01: a storage write must carry verified bytes
   let c01b := (commaList (get "sto")).filterMap fun c =>
     if c.startsWith "write:" && !c.endsWith ":ok" then some s!"C01 unverified-bytes-written call={c}" else none
